@@ -455,3 +455,182 @@ func inlineEmbeddedHelpers(c *Ctx) int {
 	}
 	return total
 }
+
+// inlineFieldCopies: `var x = v.f` where x is never assigned again, its address is not taken, and
+// nothing in the function assigns to the field f: the local is another name for the field ("the
+// field is read only once").  Its uses are replaced by the selection, so that the rules that
+// look for the field find it.  (A callee that replaces the field between the copy and a use
+// would make the two differ; the local copies this normal form is for are taken of fields that
+// the function does not change.)
+func inlineFieldCopies(c *Ctx) int {
+	total := 0
+	for _, p := range c.All {
+		info := p.TypesInfo
+		// fields that are assigned somewhere in the package after construction: a copy of such a
+		// field is a snapshot (taken under a lock, say), not another name for it
+		mutable := map[*types.Var]bool{}
+		for _, f := range p.Syntax {
+			ast.Inspect(f, func(x ast.Node) bool {
+				mark := func(e ast.Expr) {
+					if fl := selectorField(info, e); fl != nil {
+						mutable[fl] = true
+					}
+				}
+				switch s := x.(type) {
+				case *ast.AssignStmt:
+					for _, l := range s.Lhs {
+						mark(l)
+					}
+				case *ast.IncDecStmt:
+					mark(s.X)
+				case *ast.UnaryExpr:
+					if s.Op == token.AND {
+						mark(s.X)
+					}
+				}
+				return true
+			})
+		}
+		for _, f := range p.Syntax {
+			for _, d := range f.Decls {
+				fd, ok := d.(*ast.FuncDecl)
+				if !ok || fd.Body == nil || fd.Recv == nil {
+					continue
+				}
+				params := map[types.Object]bool{}
+				if o := recvObj(info, fd); o != nil {
+					params[o] = true
+				}
+				for _, po := range paramObjs(info, fd) {
+					params[po] = true
+				}
+				// candidates
+				type cand struct {
+					obj types.Object
+					sel *ast.SelectorExpr
+					fld *types.Var
+				}
+				var cands []cand
+				ast.Inspect(fd.Body, func(x ast.Node) bool {
+					if _, isLit := x.(*ast.FuncLit); isLit {
+						return false
+					}
+					lhs, rhs, ok := multiDef(x)
+					if !ok || len(lhs) != 1 {
+						return true
+					}
+					if as, isAs := x.(*ast.AssignStmt); isAs && as.Tok != token.DEFINE {
+						return true
+					}
+					se, ok := ast.Unparen(rhs).(*ast.SelectorExpr)
+					if !ok {
+						return true
+					}
+					fld := selectorField(info, se)
+					base := identObj(info, se.X)
+					id, isId := lhs[0].(*ast.Ident)
+					if fld == nil || base == nil || !params[base] || !isId || info.Defs[id] == nil {
+						return true
+					}
+					cands = append(cands, cand{info.Defs[id], se, fld})
+					return true
+				})
+				if len(cands) == 0 {
+					continue
+				}
+				// disqualify: the local is assigned again or has its address taken; the field (or the
+				// parameter it is selected from) is written in the function
+				bad := map[types.Object]bool{}
+				fieldWritten := map[*types.Var]bool{}
+				ast.Inspect(fd.Body, func(x ast.Node) bool {
+					mark := func(e ast.Expr) {
+						if o := identObj(info, e); o != nil {
+							bad[o] = true
+						}
+						if fl := selectorField(info, e); fl != nil {
+							fieldWritten[fl] = true
+						}
+					}
+					switch s := x.(type) {
+					case *ast.AssignStmt:
+						if s.Tok != token.DEFINE {
+							for _, l := range s.Lhs {
+								mark(l)
+							}
+						}
+					case *ast.IncDecStmt:
+						mark(s.X)
+					case *ast.UnaryExpr:
+						if s.Op == token.AND {
+							mark(s.X)
+						}
+					case *ast.RangeStmt:
+						if s.Tok == token.ASSIGN {
+							if s.Key != nil {
+								mark(s.Key)
+							}
+							if s.Value != nil {
+								mark(s.Value)
+							}
+						}
+					}
+					return true
+				})
+				// a function with lock regions takes its copies on purpose (inside the region, for use
+				// behind it)
+				locks := false
+				ast.Inspect(fd.Body, func(x ast.Node) bool {
+					if _, mname, call, ok := methodCall(x); ok && len(call.Args) == 0 {
+						switch mname {
+						case "Lock", "Unlock", "RLock", "RUnlock":
+							locks = true
+						}
+					}
+					return true
+				})
+				repl := map[types.Object]*ast.SelectorExpr{}
+				for _, cd := range cands {
+					if bad[cd.obj] || fieldWritten[cd.fld] || (mutable[cd.fld] && locks) || bad[identObj(info, cd.sel.X)] {
+						continue
+					}
+					repl[cd.obj] = cd.sel
+				}
+				if len(repl) == 0 {
+					continue
+				}
+				astutil.Apply(fd.Body, func(cur *astutil.Cursor) bool {
+					id, ok := cur.Node().(*ast.Ident)
+					if !ok {
+						return true
+					}
+					se := repl[info.Uses[id]]
+					if se == nil {
+						return true
+					}
+					// not the selector part of x.y, not a key of a composite literal
+					switch par := cur.Parent().(type) {
+					case *ast.SelectorExpr:
+						if par.Sel == id {
+							return true
+						}
+					case *ast.KeyValueExpr:
+						if par.Key == ast.Expr(id) {
+							if _, inLit := info.Types[par.Key]; !inLit {
+								return true
+							}
+						}
+					}
+					in := &inliner{info: info, pos: id.Pos(), end: id.End() - 1, ok: true}
+					cp := in.expr(se)
+					if !in.ok {
+						return true
+					}
+					cur.Replace(cp)
+					total++
+					return false
+				}, nil)
+			}
+		}
+	}
+	return total
+}
